@@ -51,7 +51,7 @@ Parameter-coverage additions (audit of families x routines x flags):
                                with lamb=None / weights / r_add = 1 / allow_swap, on zero / constant / one-hot / zero-slice data
   C11.anova.class_flags        ANOVA.cores(rel_noise) twice on one object, r above the mode sizes, constant and zero data
 """
-import contextlib, io
+import contextlib, io, math
 import numpy as np
 import teneva
 from rtc.api import clause, PASS, FAIL, TRIVIAL, SKIP, check
@@ -361,6 +361,228 @@ def scalars_finite(shape, fam, r, seed):
     """norm (plain and stabilised), sum, mean, mul_scalar (plain and stabilised), erank are finite numbers."""
     msg = _scalars(_tt(shape, fam, r, seed), fam)
     return FAIL(msg) if msg else PASS
+
+
+# -- tensors with more entries than an integer type can count (gap closure: the element count prod(n) >= 2^63) ----------
+
+MANY_FAMS = ('pos', 'signed', 'rank1', 'const', 'rankdef', 'over', 'pad0', 'dupcol', 'cancel',
+             'zero_all', 'zero_first', 'zero_mid', 'zero_last', 'const0')
+
+
+def _many_shape(d, nk, mix):
+    """mode sizes: 'uniform' [nk]*d; 'ones' the same with a mode of size 1 after every third mode (same element count);
+    'ragged' nk, nk+1, nk, ... ; 'lead1' / 'tail1' a mode of size 1 in front / at the end."""
+    if mix == 'uniform':
+        return [nk] * d
+    if mix == 'ones':
+        out = []
+        for k in range(d):
+            out.append(nk)
+            if k % 3 == 2:
+                out.append(1)
+        return out
+    if mix == 'ragged':
+        return [nk + k % 2 for k in range(d)]
+    if mix == 'lead1':
+        return [1] + [nk] * d
+    if mix == 'tail1':
+        return [nk] * d + [1]
+    raise ValueError(mix)
+
+
+def _many_cores(shape, fam, r, seed):
+    """Integer cores K_k (int64 arrays) and power-of-two denominators q_k: the tensor is the chain of K_k / q_k, every
+    entry exactly representable, per-mode growth of the sums close to 1 so that d = 130 modes stay far from over- / underflow."""
+    d = len(shape)
+    g = gen.rng('C11.many', shape[:4], d, fam, r, seed)
+
+    def pw2(x):                       # smallest power of two >= x
+        return 1 << max(0, int(np.ceil(np.log2(max(1, x)))))
+    rr = [1] + [r] * (d - 1) + [1]
+    if fam in ('rank1', 'const', 'rankdef'):
+        rr = [1] * (d + 1)
+    if fam == 'over':                 # bonds larger than the neighbouring cores can carry
+        rr = [1] + [r + 3] * (d - 1) + [1]
+    K, q = [], []
+    for k, n in enumerate(shape):
+        a, b = rr[k], rr[k + 1]
+        if fam in ('pos', 'over', 'pad0', 'dupcol', 'cancel') or fam.startswith('zero'):
+            G = g.integers(0, 5, size=(a, n, b))
+            G[0, 0, 0] = 4
+        elif fam == 'signed':
+            G = g.integers(-4, 5, size=(a, n, b))
+        elif fam == 'rank1':
+            G = g.integers(1, 8, size=(1, n, 1))
+        elif fam in ('const', 'rankdef'):
+            G = np.full((1, n, 1), 4) if fam == 'const' else g.integers(1, 8, size=(1, n, 1))
+        elif fam == 'const0':
+            G = np.zeros((1, n, 1), dtype=np.int64)
+        else:
+            raise ValueError(fam)
+        K.append(G.astype(np.int64))
+        q.append(4 if fam in ('rank1', 'const', 'rankdef') else pw2(2 * max(a, b) * (1 if fam == 'signed' else 1)))
+    if fam == 'const':
+        K[0] = K[0] * 3                                  # the constant 3 (cores 4/4 = 1, first core 12/4)
+    if fam == 'rankdef':                                 # TT-ranks r, all unfoldings of rank 1
+        rr = [1] + [r] * (d - 1) + [1]
+        K = [np.array(np.broadcast_to(G, (rr[k], G.shape[1], rr[k + 1]))) for k, G in enumerate(K)]
+        q = [4 * pw2(r)] * d
+    if fam == 'pad0':                                    # the bonds embedded in larger ones by zero blocks
+        Z = []
+        for k, G in enumerate(K):
+            H = np.zeros((G.shape[0] + (2 if k > 0 else 0), G.shape[1], G.shape[2] + (2 if k < d - 1 else 0)), dtype=np.int64)
+            H[(1 if k > 0 else 0):(1 if k > 0 else 0) + G.shape[0], :, :G.shape[2]] = G
+            Z.append(H)
+        K = Z
+    if fam == 'dupcol':                                  # every bond carries each column twice
+        K = [np.concatenate([G, G], axis=2) if k < d - 1 else G for k, G in
+             enumerate([np.concatenate([G, G], axis=0) if k > 0 else G for k, G in enumerate(K)])]
+        q = [2 * x for x in q]
+    if fam == 'cancel':                                  # X - X by block cores: exactly zero, no zero core
+        Z = []
+        for k, G in enumerate(K):
+            a, n, b = G.shape
+            if k == 0:
+                H = np.concatenate([G, G], axis=2)
+            elif k == d - 1:
+                H = np.concatenate([G, -G], axis=0)
+            else:
+                H = np.zeros((2 * a, n, 2 * b), dtype=np.int64)
+                H[:a, :, :b] = G
+                H[a:, :, b:] = G
+            Z.append(H)
+        K = Z
+    if fam.startswith('zero'):
+        for k in {'zero_all': range(d), 'zero_first': [0], 'zero_mid': [d // 2], 'zero_last': [d - 1]}[fam]:
+            K[k] = np.zeros_like(K[k])
+    return K, q
+
+
+def _int_chain(mats):
+    """exact product of a chain of integer matrices (object arrays of Python ints), first 1 x r, last r x 1"""
+    v = mats[0]
+    for Mx in mats[1:]:
+        v = v.dot(Mx)
+    assert v.shape == (1, 1)
+    return int(v[0, 0])
+
+
+def _many_exact(K, q):
+    """exact sum S and sum of squares Q of the tensor chain(K_k / q_k), and the same for the chain of |K_k| (the scale of
+    the rounding error of any evaluation order): Fractions."""
+    from fractions import Fraction
+    den = 1
+    for x in q:
+        den *= int(x)
+    out = []
+    for KK in (K, [np.abs(G) for G in K]):
+        mats_s, mats_q = [], []
+        for G in KK:
+            assert G.shape[1] * int(np.abs(G).max(initial=0)) ** 2 < 2 ** 62          # the int64 sums below are exact
+            mats_s.append(G.sum(axis=1).astype(object))
+            mats_q.append(np.einsum('aib,cid->acbd', G, G).reshape(G.shape[0] ** 2, G.shape[2] ** 2).astype(object))
+        out += [Fraction(_int_chain(mats_s), den), Fraction(_int_chain(mats_q), den * den)]
+    return out          # S, Q, Sabs, Qabs
+
+
+@clause('C11.scalars.many_modes', funcs=('act_one.norm', 'act_one.sum', 'act_one.mean', 'act_two.mul_scalar', 'props.erank',
+                                         'act_two.accuracy'))
+def scalars_many_modes(d, nk, mix, fam, r, seed):
+    """Scalars of degenerate tensors whose NUMBER OF ENTRIES exceeds every integer type (2^63 .. 5^130 entries: QTT-like
+    [2]*63 / *64 / *65, [4]*32, [16]*16, [3]*41, [65536]*4, modes of size 1 mixed in): zero tensors (all / one zero core,
+    const(n, 0.)), exact cancellation X - X, constant, rank-1, rank-deficient, over-ranked, zero-padded and duplicated bonds.
+    sum, mean (default, norm=False, explicit uniform P), mul_scalar and norm (plain and stabilised), erank are FINITE and agree
+    with exact rational arithmetic on the core chain (dyadic cores) within 64 d eps of the chain of moduli (exactly 0 for a
+    tensor with a zero core); accuracy against a zero reference is the sentinel -1, accuracy(Y, 2Y) is 1/2, accuracy(0, Y) is 1.
+    The case is skipped if an exact value or its modulus bound lies outside [1e-280, 1e280] (a legitimate over- / underflow)."""
+    from fractions import Fraction
+    shape = _many_shape(d, nk, mix)
+    dd = len(shape)
+    K, q = _many_cores(shape, fam, r, seed)
+    Y = [G.astype(float) / float(x) for G, x in zip(K, q)]
+    if fam == 'const0':
+        Y = teneva.const(shape, 0.)
+        if _bad(Y, shape, 'const(n, 0.)'):
+            return FAIL(_bad(Y, shape, 'const(n, 0.)'))
+    S, Q, Sa, Qa = _many_exact(K, q)
+    N = 1
+    for n in shape:
+        N *= int(n)
+    if N < 2 ** 62:
+        return SKIP('fewer than 2^62 entries: covered by C11.scalars.finite')
+    for v in (Sa, Qa, Sa / N, Qa / N):
+        if v != 0 and not (Fraction(10) ** -280 <= v <= Fraction(10) ** 280):
+            return SKIP(f'modulus bound {float(v) if v < Fraction(10) ** 300 else "huge"} outside [1e-280, 1e280]')
+    zero = fam.startswith('zero') or fam == 'const0'
+    tol = Fraction(64 * dd * float(np.finfo(float).eps))
+    snap = gen.snapshot(Y)
+    what = f'{fam} tensor, {dd} modes {shape[:4]}.., {N} entries'
+
+    def near(got, want, scale, name):
+        if not _finite_scalar(got):
+            return f'{name}({what}) = {got!r}, exact value {float(want)!r}'
+        if zero:
+            return None if got == 0 else f'{name}({what}) = {got!r}, the tensor has an exactly-zero core'
+        if abs(Fraction(float(got)) - want) > tol * scale:
+            return f'{name}({what}) = {got!r}, exact value {float(want)!r} (chain of moduli {float(scale)!r})'
+        return None
+
+    P = [np.full(n, 1.0 / n) for n in shape]
+    msg = (near(teneva.sum(Y), S, Sa, 'sum') or near(teneva.mean(Y), S / N, Sa / N, 'mean')
+           or near(teneva.mean(Y, norm=False), S, Sa, 'mean(norm=False)')
+           or near(teneva.mean(Y, P), S / N, Sa / N, 'mean(P uniform)')
+           or near(teneva.mul_scalar(Y, Y), Q, Qa, 'mul_scalar(Y, Y)'))
+    if msg:
+        return FAIL(msg)
+    nr = teneva.norm(Y)
+    if not (_finite_scalar(nr) and nr >= 0):
+        return FAIL(f'norm({what}) = {nr!r}')
+    msg = near(float(nr) ** 2, Q, Qa + Q, 'norm^2')
+    if msg:
+        return FAIL(msg)
+    v, p = teneva.mul_scalar(Y, Y, use_stab=True)
+    z, pz = teneva.norm(Y, use_stab=True)
+    for name, x in (('mul_scalar.stab.v', v), ('mul_scalar.stab.p', p), ('norm.stab.v', z), ('norm.stab.p', pz)):
+        if not _finite_scalar(x):
+            return FAIL(f'{name}({what}) = {x!r}')
+    if float(p) != int(p) or float(2 * pz) != int(2 * pz):
+        return FAIL(f'stabilised powers {p!r}, {pz!r} are not (half-)integers')
+    two = lambda t: Fraction(2) ** int(t) if t >= 0 else Fraction(1, 2 ** int(-t))
+    msg = near(0.0 if zero and v == 0 else float(Fraction(float(v)) * two(p)), Q, Qa, 'mul_scalar(use_stab) v * 2^p') \
+        or near(0.0 if zero and z == 0 else float(Fraction(float(z)) ** 2 * two(2 * pz)), Q, Qa + Q, 'norm(use_stab)^2 * 2^(2p)')
+    if msg:
+        return FAIL(msg)
+    er = teneva.erank(Y)
+    rk = [1] + [G.shape[2] for G in Y]
+    sz = sum(shape[k] * rk[k] * rk[k + 1] for k in range(dd))
+    a, b = sum(shape[1:dd - 1]), shape[0] * rk[0] + shape[-1] * rk[-1]
+    want = (math.sqrt(b * b + 4 * a * sz) - b) / (2 * a)
+    if not (_finite_scalar(er) and abs(er - want) <= 1e-12 * want):
+        return FAIL(f'erank({what}) = {er!r}, from the definition {want!r}')
+    # relative accuracy: sentinel against a zero reference, 1/2 against 2Y, 1 for the zero tensor against Y
+    Z0 = [np.zeros((1, n, 1)) for n in shape]
+    Y2 = [G.copy() for G in Y]
+    Y2[dd // 2] = 2.0 * Y2[dd // 2]
+    w = teneva.accuracy(Y, Z0)
+    if not (_finite_scalar(w) and w == -1):
+        return FAIL(f'accuracy({what}, zero tensor) = {w!r}, expected the sentinel -1')
+    w, w0 = teneva.accuracy(Y, Y2), teneva.accuracy(Z0, Y)
+    if zero:
+        if not (_finite_scalar(w) and w == -1 and _finite_scalar(w0) and w0 == -1):
+            return FAIL(f'accuracy({what}, 2 * itself) = {w!r}, accuracy(zero tensor, itself) = {w0!r}: expected the sentinel -1')
+    elif Q == 0:                                  # zero by cancellation: the computed norm need not be exactly 0
+        if not (_finite_scalar(w) and _finite_scalar(w0)):
+            return FAIL(f'accuracy({what}, 2 * itself) = {w!r}, accuracy(zero tensor, itself) = {w0!r}')
+    else:
+        cond = float(Qa / Q) if Qa / Q < 10 ** 300 else float('inf')                   # cancellation inside <Y - 2Y, Y - 2Y>
+        slack = 1e3 * dd * float(np.finfo(float).eps) * 9 * cond + 1e-12
+        if not (_finite_scalar(w) and abs(w - 0.5) <= slack):
+            return FAIL(f'accuracy({what}, 2 * itself) = {w!r}, expected 0.5')
+        if not (_finite_scalar(w0) and abs(w0 - 1.0) <= slack):
+            return FAIL(f'accuracy(zero tensor, {what}) = {w0!r}, expected 1')
+    if gen.snapshot(Y) != snap:
+        return FAIL('argument cores were modified')
+    return PASS
 
 
 @clause('C11.arith.wf', funcs=('act_two.add', 'act_two.sub', 'act_two.mul', 'act_two.outer', 'act_many.outer_many'))
